@@ -22,7 +22,12 @@ ModSet(levels) == {Mods[k] : k \in 1..levels}
 \* sub-sub-package>`.  deepname: that package is called `deep`, or its name BEGINS WITH the root package's name (`pkg_ext`).
 AtMostOne(S) == {{}} \cup {{x} : x \in S}
 Opts == {o \in [levels : 1..3, emit : EmitKinds, recursive : BOOLEAN, black : AtMostOne({"a", "g", "self", "deep"}), white : AtMostOne({"a", "g", "self"}),
-               dry : BOOLEAN, out_exists : BOOLEAN, expose : {"top", "sub"}, prior : BOOLEAN, deepname : {"deep", "rootish"}] :
+               dry : BOOLEAN, out_exists : BOOLEAN, expose : {"top", "sub"}, prior : BOOLEAN, deepname : {"deep", "rootish"},
+               reexport : {"flat", "nested"}] :
+           \* reexport = "nested": the exposed package's __init__ re-exports from its plain module AND from its sub-package (`from pkg.sub import
+           \* Gamma`), so that a second symbol is MERGED into an output __init__.py that already holds a re-export line
+           /\ (o.reexport = "nested" => /\ ((o.expose = "top" /\ o.levels >= 2) \/ (o.expose = "sub" /\ o.levels = 3))
+                                        /\ o.black = {} /\ o.white = {} /\ ~o.prior /\ o.deepname = "deep")
            \* prior: an earlier REAL run of the same command has already populated the output directory (a history: dry runs only)
            /\ (o.prior => o.dry /\ o.out_exists)
            /\ (o.expose = "top" => /\ o.black \subseteq ModSet(o.levels) /\ o.white \subseteq ModSet(o.levels)
@@ -32,8 +37,9 @@ Opts == {o \in [levels : 1..3, emit : EmitKinds, recursive : BOOLEAN, black : At
            /\ (o.expose = "sub" => /\ o.levels >= 2 /\ o.black \subseteq {"self", "deep"} /\ o.white \subseteq {"self"}
                                     /\ o.emit \in {"class", "function", "sqlalchemy"})}
 
-Walked(o) == IF o.expose = "top" THEN {m \in ModSet(o.levels) : o.recursive \/ LevelOf(m) = 1}
-             ELSE {m \in ModSet(o.levels) \ {"a"} : o.recursive \/ LevelOf(m) = 2}
+\* (a nested re-export puts the sub-package's symbol into the exposed package's own __all__: its module is exposed without --recursive)
+Walked(o) == IF o.expose = "top" THEN {m \in ModSet(o.levels) : o.recursive \/ LevelOf(m) = 1 \/ (o.reexport = "nested" /\ LevelOf(m) = 2)}
+             ELSE {m \in ModSet(o.levels) \ {"a"} : o.recursive \/ LevelOf(m) = 2 \/ (o.reexport = "nested" /\ LevelOf(m) = 3)}
 \* for a dotted exposed package the filters act on the package: its own module g is excluded when the package is blacklisted
 \* (the blacklist wins); the sub-package's module d is excluded when a whitelist is given that does not name it
 Included(o) == IF o.expose = "top" THEN {m \in Walked(o) : m \notin o.black /\ (o.white = {} \/ m \in o.white)}
@@ -81,7 +87,7 @@ AllFourOrDeviation == pc = "done" => (AllFour \/ Fired(o) # {})
 RECURSIVE SetToSeq(_)
 SetToSeq(S) == IF S = {} THEN <<>> ELSE LET x == CHOOSE x \in S : TRUE IN <<x>> \o SetToSeq(S \ {x})
 Dump == pc = "done" => PrintT(ToJson([o |-> [levels |-> o.levels, emit |-> o.emit, recursive |-> o.recursive, dry |-> o.dry,
-                                             expose |-> o.expose, out_exists |-> o.out_exists, prior |-> o.prior, deepname |-> o.deepname, black |-> SetToSeq(o.black), white |-> SetToSeq(o.white)],
+                                             expose |-> o.expose, out_exists |-> o.out_exists, prior |-> o.prior, deepname |-> o.deepname, reexport |-> o.reexport, black |-> SetToSeq(o.black), white |-> SetToSeq(o.white)],
                                       included |-> SetToSeq(Included(o)), excluded |-> SetToSeq(Excluded(o)),
                                       devs |-> SetToSeq(Fired(o))]))
 =====================================================================================
